@@ -161,11 +161,17 @@ func (p *c19) build(seed uint64, tier string) []C19Scenario {
 							{Verb: "QUIT", Nth: 1, Action: refsmtpd.Action{Kind: "garbage"}},
 							{Verb: "RSET", Nth: 1, Action: refsmtpd.Action{Code: 451, Text: "cannot reset"}},
 							{Verb: "RSET", Nth: 1, Action: refsmtpd.Action{Kind: "drop"}},
+							// a connection probe on the clean-up path (the unchanged tree sends none
+							// there; a change that adds one must cope with its refusal)
+							{Verb: "NOOP", Nth: 2, Action: refsmtpd.Action{Code: 421, Text: "going down"}},
 						} {
-							if tier != "thorough" && (si+fi+ci)%5 != 0 {
+							// quick: a rotating sample, which always holds the refused QUIT (a reply
+							// that is not 221 is the one clean-up fault that leaves the connection
+							// usable, hence open) for one failure kind per step
+							if tier != "thorough" && (si+fi+ci)%5 != 0 && !(ci == 0 && fi == si%len(failKinds)) {
 								continue
 							}
-							if cl.Verb == "RSET" && op != "dialandsend" {
+							if (cl.Verb == "RSET" || cl.Verb == "NOOP") && op != "dialandsend" {
 								continue
 							}
 							s := base()
@@ -450,7 +456,7 @@ func (p *c19) Shrink(scAny any) []any {
 
 func (p *c19) Info() PropInfo {
 	return PropInfo{
-		Rule: "enumeration: {DialWithContext, DialAndSend, a second DialWithContext on a connected Client whose first connection refuses, loses or garbles its QUIT} x TLS policy {mandatory, opportunistic, none} x auth type x failing step (greeting, EHLO, EHLO+HELO, STARTTLS missing/refused, TLS handshake failure kinds, post-TLS EHLO, AUTH missing/mechanism missing/bad password/each AUTH step, NOOP, MAIL, each RCPT, DATA, end-of-data, RSET, QUIT) x failure kind {421, 451, 550, 554, disconnect, garbage reply, reply-then-close}, each also combined with a second fault on the clean-up path (QUIT refused / dropped / garbled, RSET refused / dropped; thorough: all pairs, quick: every fifth), and connections made through the fallback port; a case is non-trivial when a failure is injected; distinct = distinct (op, policy, auth, step, rule, error class)",
+		Rule: "enumeration: {DialWithContext, DialAndSend, a second DialWithContext on a connected Client whose first connection refuses, loses or garbles its QUIT; the caller's context cancelled by another task 0.15..2.5 ms into the call} x TLS policy {mandatory, opportunistic, none} x auth type x failing step (greeting, EHLO, EHLO+HELO, STARTTLS missing/refused, TLS handshake failure kinds, post-TLS EHLO, AUTH missing/mechanism missing/bad password/each AUTH step, NOOP, MAIL, each RCPT, DATA, end-of-data, RSET, QUIT) x failure kind {421, 451, 550, 554, disconnect, garbage reply, reply-then-close}, each also combined with a second fault on the clean-up path (QUIT refused / dropped / garbled, RSET refused / dropped; thorough: all pairs, quick: every fifth), and connections made through the fallback port; a case is non-trivial when a failure is injected; distinct = distinct (op, policy, auth, step, rule, error class)",
 		Assumptions: []string{"the connection handed out by the dial function is the only transport resource; Close on it is what 'closed' means (for TLS-wrapped connections the underlying simulated connection's Close counts)",
 			"calls that never return are not judged here (C17)"},
 		Real:       []string{"github.com/wneessen/go-mail (Client, smtp.Client, all SASL mechanisms)", "net/textproto", "crypto/tls on both ends"},
